@@ -70,8 +70,8 @@ package peer
 //@   props    C11 C09
 
 //@ func toChunk
-//@   requires peer != nil && PG(peer) && int(begin) < int(peer.Pieces.PieceSize())
-//@   ensures  [spec] int(index)*(int(peer.Pieces.PieceSize())/16384) + int(begin)/16384 <= 4294967295 ==> int($r0) == int(index)*(int(peer.Pieces.PieceSize())/16384) + int(begin)/16384
+//@   requires peer != nil && PG(peer)
+//@   ensures  [spec] int(begin) < int(peer.Pieces.PieceSize()) && int(index)*(int(peer.Pieces.PieceSize())/16384) + int(begin)/16384 <= 4294967295 ==> int($r0) == int(index)*(int(peer.Pieces.PieceSize())/16384) + int(begin)/16384
 //@   props    C11 C09
 
 //@ func chunkSize
@@ -129,8 +129,19 @@ package peer
 //@ spec PeerHas(peer *Peer, i int) bool
 //@   import "github.com/jech/storrent/bitmap"
 //@   body bitmap.Bit(peer.bitmap, i)
+//@ spec NQ(peer *Peer) int
+//@   import "github.com/jech/storrent/peer/requests"
+//@   body requests.NQueued(&peer.requests)
 //@ func maybeRequest
-//@   requires peer != nil && PG(peer) && QOK(peer)
+//@   requires peer != nil
+//@   requires [pg] PG(peer) || NQ(peer) == 0
+//@   requires [rbitsq] QRBitsQ(peer)
+//@   requires [rbitsr] QRBitsR(peer)
+//@   requires [rdistq] QRDistQ(peer)
+//@   requires [rdistr] QRDistR(peer)
+//@   requires [rdistqr] QRDistQR(peer)
+//@   requires [rsep] QRSep(peer)
+//@   requires [below] QBelow(peer)
 //@   ghostvar Ghost_fast bool
 //@   atcall   isFast :: true :: Ghost_fast = $r0
 //@   ghostvar Ghost_i int
@@ -147,7 +158,7 @@ package peer
 //@   ensures  [below] QBelow(peer)
 //@   ensures  [depth] NSent(peer) <= max(old(NSent(peer)), max(2, peer.reqQ))
 //@   loop 1
-//@     invariant [pg] PG(peer)
+//@     invariant [pg] PG(peer) || NQ(peer) == 0
 //@     invariant [rbitsq] QRBitsQ(peer)
 //@     invariant [rbitsr] QRBitsR(peer)
 //@     invariant [rdistq] QRDistQ(peer)
@@ -174,13 +185,35 @@ package peer
 // handleMessage: PARTIAL check -- (C18) the DHT is only pinged for a torrent
 // without a proxy (the DHT socket bypasses the proxy); (C16) every upload
 // request it accepts is short (ReqOK kept, established for scheduleUpload/unchoke).
+// handleMessage [setbound]: before the metadata is known (no piece count to
+// check against) no message may extend the peer's bitmap beyond bit 2^20 --
+// memory in proportion to the message, not to an attacker-chosen index.
+// PeerInv: what the peer goroutine's state satisfies between two messages:
+// the piece store's geometry is consistent once the metadata is known (before,
+// nothing divides by the piece size), the request queue and the upload queue
+// satisfy their invariants, the logger exists.
+//@ spec PeerInv(peer *Peer) bool
+//@   import "github.com/jech/storrent/tor/piece"
+//@   body peer.Pieces != nil && peer.Log != nil && (peer.Info != nil ==> piece.GeomP(peer.Pieces) && (peer.Pieces.Length()+16383)/16384 <= 4294967295) && peer.amUnchoking <= 1
+
 //@ func handleMessage
 //@   requires peer != nil
+//@   requires [inv]   PeerInv(peer)
 //@   requires [reqok] ReqOK(peer)
+//@   requires [queue] QOK(peer)
+//@   requires [qinfo] peer.Info == nil ==> NQ(peer) == 0
+//@   requires [msg]   typeis_[protocol.Piece](m) ==> len(as_[protocol.Piece](m).Data) <= 1<<20
+//@   ghostvar Ghost_set int
+//@   atcall   Set :: true :: Ghost_set = i
 //@   modifies *
 //@   assertcall [noping] Ping :: peer.proxy == ""
-//@   focus    assert:noping, pre:peer.scheduleUpload.reqok, pre:peer.unchoke.reqok
-//@   props    C18 C16
+//@   ensures  [setbound]  !typeis_[protocol.Have](m) && old(peer.Info) == nil ==> Ghost_set <= 1<<20
+//@   ensures  [havebound] typeis_[protocol.Have](m) && old(peer.Info) == nil ==> Ghost_set <= 1<<20
+//@   splitreturn
+//@   waive    pre:maybeRequest.below :: that every queued block number stays below the block count across requests.del is not carried by del's contract (it would need 'every remaining element is an old element'); it matters for the conformance of later Requests (C11), not for safety
+//@   waive    pre:maybeRequest.rbits :: in the Piece arm, after Pieces.AddData: AddData's contract frames the whole byte heap (heap:A:uint8), which also holds the request queue's membership bitmap, so its bits are lost to the proof there (AddData writes only piece buffers and piece bitmaps: not expressed)
+//@   waive    panic :: the default arm panics on a message type that protocol.Read cannot produce (C04: Read returns one of its own message types or an error, never nil)
+//@   props    C18 C16 C05
 
 // ---- Upload and choking discipline (C16) ----
 //@ func reject
